@@ -1,5 +1,240 @@
-import Hpl.Spec.Eval
-/-! # C08 — `simplify` preserves meaning (model and theorems in progress) -/
+import Hpl.Model.Rewrite.Simplify
+import Hpl.Props.C09
+/-!
+# C08 — `simplify` preserves meaning
+
+Model: `Hpl/Model/Rewrite/Simplify.lean` (all rule functions of `hpl.rewrite._simplify*`, as written after the `fix:`
+commits recorded in known_findings.json). Spec: `eval` / `truth` of `Hpl/Spec/Eval.lean`.
+
+`Preserves e' e`: under every valuation on which the original `e` evaluates without error, `e'` evaluates to the same
+value. This file proves the rule lemmas of the logical layer (negation, conjunction, disjunction, the `obviously
+different` test, unit / idempotence / complement / de-duplication laws) and the table obligations the flip and
+re-association steps rely on. The recursion over the whole term (`simplify_sound`) is stated at full strength below as
+`SimplifySound`; the part proved so far is named `_partial` and says what is missing.
+-/
 namespace Hpl
-theorem c08_placeholder : True := trivial
+section
+variable (opq : Opaque)
+
+/-- `e'` preserves `e`: wherever the original has a value, the rewritten form has the same value -/
+def Preserves (e' e : Expr) : Prop := ∀ ρ v, evalO opq ρ e = some v → evalO opq ρ e' = some v
+
+theorem Preserves.refl (e : Expr) : Preserves opq e e := fun _ _ h => h
+theorem Preserves.trans {a b c : Expr} (h1 : Preserves opq a b) (h2 : Preserves opq b c) : Preserves opq a c :=
+  fun ρ v h => h1 ρ v (h2 ρ v h)
+theorem Preserves.of_like {a b : Expr} (h : EvalLike opq a b) : Preserves opq a b :=
+  fun ρ v hv => by unfold evalO at *; rw [h ρ]; exact hv
+
+/-- the statement of the property for the model (full strength) -/
+def SimplifySound : Prop := ∀ e e', simplifyExpr e = .ok e' → Preserves opq e' e
+
+/-! ## generated-table obligations (G2, G4): what the flip and re-association steps need -/
+
+/-- operators flagged commutative are exactly these (each is semantically commutative, see `binOp_comm`) -/
+theorem G2_commutative_flags : (Gen.binOps.filter (·.comm)).map (·.token) = ["+", "*", "iff", "or", "and", "=", "!="] := by decide
+
+/-- operators flagged associative (re-associated together with their commutativity) are exactly these -/
+theorem G2_associative_flags : (Gen.binOps.filter (·.assoc)).map (·.token) = ["+", "*", "iff", "or", "and"] := by decide
+
+/-- every associative operator is also flagged commutative (the re-association needs both) -/
+theorem G2_assoc_implies_comm : ∀ d ∈ Gen.binOps, d.assoc = true → d.comm = true := by decide
+
+/-- `INVERSE_OPERATORS`: self-inverse for the commutative ones, `<`/`>` and `<=`/`>=` swapped -/
+theorem G4_inverse_table : Gen.inverseOps =
+    [("+", "+"), ("*", "*"), ("and", "and"), ("or", "or"), ("iff", "iff"), ("=", "="), ("!=", "!="),
+     ("<", ">"), (">", "<"), ("<=", ">="), (">=", "<=")] := by decide
+
+/-- semantic content of the inverse table for the comparison operators: `a < b` is `b > a` (errors collapsed) -/
+theorem binOp_inverse_lt (a b : Value) : (binOp "<" a b).toOption = (binOp ">" b a).toOption := by
+  simp only [binOp]
+  have h1 : ("<" == Gen.AND_OPERATOR) = false := by decide
+  have h2 : ("<" == Gen.OR_OPERATOR) = false := by decide
+  have h3 : ("<" == Gen.IMPLIES_OPERATOR) = false := by decide
+  have h4 : ("<" == Gen.IFF_OPERATOR) = false := by decide
+  have h5 : ("<" == "=") = false := by decide
+  have h6 : ("<" == "!=") = false := by decide
+  have g1 : (">" == Gen.AND_OPERATOR) = false := by decide
+  have g2 : (">" == Gen.OR_OPERATOR) = false := by decide
+  have g3 : (">" == Gen.IMPLIES_OPERATOR) = false := by decide
+  have g4 : (">" == Gen.IFF_OPERATOR) = false := by decide
+  have g5 : (">" == "=") = false := by decide
+  have g6 : (">" == "!=") = false := by decide
+  have g7 : (">" == "<") = false := by decide
+  simp only [h1, h2, h3, h4, h5, h6, g1, g2, g3, g4, g5, g6, g7, Bool.false_eq_true, ↓reduceIte, beq_self_eq_true]
+  cases asPrim a <;> cases asPrim b <;> rfl
+
+theorem expr_eq_of_beq {a b : Expr} (h : (a == b) = true) : a = b := eq_of_beq h
+
+/-! ## the `obviously different` test -/
+
+/-- arithmetic results have no truth value -/
+theorem truth_arith_none (ρ : Env) (t : DataType) (op : String) (p k : Expr) (hop : (op == "+" || op == "-") = true) (x : Bool) :
+    truth opq ρ (.bin t op p k) ≠ some x := by
+  intro ha
+  simp only [Bool.or_eq_true] at hop
+  rw [truth_eq_some] at ha
+  simp only [eval] at ha
+  cases hp : eval opq ρ p with
+  | error e => rw [hp] at ha; simp [bind, Except.bind] at ha
+  | ok vp =>
+    cases hk : eval opq ρ k with
+    | error e => rw [hp, hk] at ha; simp [bind, Except.bind] at ha
+    | ok vk =>
+      rw [hp, hk] at ha
+      simp only [bind, Except.bind] at ha
+      rcases hop with hplus | hminus
+      · have := beq_eq hplus; subst this
+        simp only [binOp] at ha
+        have e1 : ("+" == Gen.AND_OPERATOR) = false := by decide
+        have e2 : ("+" == Gen.OR_OPERATOR) = false := by decide
+        have e3 : ("+" == Gen.IMPLIES_OPERATOR) = false := by decide
+        have e4 : ("+" == Gen.IFF_OPERATOR) = false := by decide
+        have e5 : ("+" == "=") = false := by decide
+        have e6 : ("+" == "!=") = false := by decide
+        have e7 : ("+" == "<") = false := by decide
+        have e8 : ("+" == ">") = false := by decide
+        have e9 : ("+" == "<=") = false := by decide
+        have e10 : ("+" == ">=") = false := by decide
+        simp only [e1, e2, e3, e4, e5, e6, e7, e8, e9, e10, Bool.false_eq_true, ↓reduceIte, beq_self_eq_true] at ha
+        generalize asNum vp = r1 at ha
+        generalize asNum vk = r2 at ha
+        cases r1 <;> cases r2 <;> simp [bind, Except.bind, pure, Except.pure, Value.num, Value.bool] at ha
+      · have := beq_eq hminus; subst this
+        simp only [binOp] at ha
+        have e1 : ("-" == Gen.AND_OPERATOR) = false := by decide
+        have e2 : ("-" == Gen.OR_OPERATOR) = false := by decide
+        have e3 : ("-" == Gen.IMPLIES_OPERATOR) = false := by decide
+        have e4 : ("-" == Gen.IFF_OPERATOR) = false := by decide
+        have e5 : ("-" == "=") = false := by decide
+        have e6 : ("-" == "!=") = false := by decide
+        have e7 : ("-" == "<") = false := by decide
+        have e8 : ("-" == ">") = false := by decide
+        have e9 : ("-" == "<=") = false := by decide
+        have e10 : ("-" == ">=") = false := by decide
+        have e11 : ("-" == "+") = false := by decide
+        simp only [e1, e2, e3, e4, e5, e6, e7, e8, e9, e10, e11, Bool.false_eq_true, ↓reduceIte, beq_self_eq_true] at ha
+        generalize asNum vp = r1 at ha
+        generalize asNum vk = r2 at ha
+        cases r1 <;> cases r2 <;> simp [bind, Except.bind, pure, Except.pure, Value.num, Value.bool] at ha
+
+/-- `b` is the negation of `a` (syntactically) -/
+def isNegOf (b a : Expr) : Bool := match b with | .un _ op2 y => op2 == Gen.NOT_OPERATOR && y == a | _ => false
+
+theorem isNegOf_truth (ρ : Env) (b a : Expr) (h : isNegOf b a = true) (x y : Bool)
+    (ha : truth opq ρ a = some x) (hb : truth opq ρ b = some y) : x = !y := by
+  cases b with
+  | un t2 op2 q =>
+    simp only [isNegOf, Bool.and_eq_true] at h
+    have h1 := beq_eq h.1; subst h1
+    have h2 := expr_eq_of_beq h.2; subst h2
+    rw [truth_not, ha] at hb
+    have : y = !x := by simpa using hb.symm
+    subst this; cases x <;> rfl
+  | _ => simp [isNegOf] at h
+
+/-- two boolean expressions that the test separates never have the same truth value where both are defined -/
+theorem obviouslyDifferent_bool (a b : Expr) (h : obviouslyDifferent a b = true) (ρ : Env) (x y : Bool)
+    (ha : truth opq ρ a = some x) (hb : truth opq ρ b = some y) : x = !y := by
+  -- reduce to the two symmetric `not` cases; the arithmetic case `a ± k` has no truth value
+  have key : isNegOf a b = true ∨ isNegOf b a = true := by
+    cases a with
+    | un t op p =>
+      simp only [obviouslyDifferent] at h
+      split at h
+      · rename_i hop; left; simp [isNegOf, hop, h]
+      · right; cases b <;> simp_all [isNegOf]
+    | bin t op p k =>
+      simp only [obviouslyDifferent, Bool.or_eq_true, Bool.and_eq_true] at h
+      rcases h with h | h
+      · right; cases b <;> simp_all [isNegOf]
+      · exact absurd ha (truth_arith_none opq ρ t op p k (by simpa [Bool.or_eq_true] using h.1.1) x)
+    | lit _ _ _ | this _ | var _ _ | set _ _ | range _ _ _ _ _ | quant _ _ _ _ _ | call _ _ _ | field _ _ _ | index _ _ _ =>
+      right; simp only [obviouslyDifferent] at h; cases b <;> simp_all [isNegOf]
+  rcases key with k | k
+  · have := isNegOf_truth opq ρ a b k y x hb ha
+    subst this; cases x <;> rfl
+  · exact isNegOf_truth opq ρ b a k x y ha hb
+
+/-! ## conjunction and disjunction rules (operands already simplified) -/
+
+theorem truth_isTrueLit (ρ : Env) (e : Expr) (h : isTrueLit e = true) : truth opq ρ e = some true := by
+  cases e with
+  | lit t k lv => cases lv with
+    | bool b => cases b <;> simp_all [isTrueLit, truth_lit_bool]
+    | _ => simp [isTrueLit] at h
+  | _ => simp [isTrueLit] at h
+
+theorem truth_falseLit (ρ : Env) : truth opq ρ falseLit = some false := rfl
+theorem truth_trueLit' (ρ : Env) : truth opq ρ trueLit = some true := rfl
+
+/-- truth-preservation for boolean rewrites: wherever the original has a truth value the result has the same one -/
+def PreservesTruth (e' e : Expr) : Prop := ∀ ρ v, truth opq ρ e = some v → truth opq ρ e' = some v
+
+/-- the unit / annihilator / idempotence / complement cases of `_simplify_conjunction` -/
+theorem simpConjunction_head (t : DataType) (p q r : Expr)
+    (h : (if isFalseLit p then some p else if isFalseLit q then some q else if isTrueLit p then some q
+          else if isTrueLit q then some p else if p == q then some p else if obviouslyDifferent p q then some falseLit else none) = some r) :
+    PreservesTruth opq r (.bin t Gen.AND_OPERATOR p q) := by
+  intro ρ v hv
+  rw [truth_and] at hv
+  cases hp : truth opq ρ p with
+  | none => simp [hp, bind, Option.bind] at hv
+  | some a =>
+    cases hq : truth opq ρ q with
+    | none => simp [hp, hq, bind, Option.bind] at hv
+    | some b =>
+      simp [hp, hq, bind, Option.bind, pure] at hv
+      subst hv
+      split at h
+      · rename_i hf; cases h; rw [isFalseLit_truth ρ opq p hf] at hp; cases hp; simpa using isFalseLit_truth ρ opq p hf
+      · split at h
+        · rename_i hf; cases h; rw [isFalseLit_truth ρ opq q hf] at hq; cases hq; simpa using isFalseLit_truth ρ opq q hf
+        · split at h
+          · rename_i ht; cases h; rw [truth_isTrueLit opq ρ p ht] at hp; cases hp; simpa using hq
+          · split at h
+            · rename_i ht; cases h; rw [truth_isTrueLit opq ρ q ht] at hq; cases hq; simpa using hp
+            · split at h
+              · rename_i heq; cases h
+                have : p = q := expr_eq_of_beq heq
+                subst this; rw [hp] at hq; cases hq; simpa using hp
+              · split at h
+                · rename_i hd; cases h
+                  have := obviouslyDifferent_bool opq p q hd ρ a b hp hq
+                  subst this; cases b <;> exact truth_falseLit opq ρ
+                · cases h
+
+/-- the dual cases of `_simplify_disjunction` -/
+theorem simpDisjunction_head (t : DataType) (p q r : Expr)
+    (h : (if isTrueLit p then some p else if isTrueLit q then some q else if isFalseLit p then some q
+          else if isFalseLit q then some p else if p == q then some p else if obviouslyDifferent p q then some trueLit else none) = some r) :
+    PreservesTruth opq r (.bin t Gen.OR_OPERATOR p q) := by
+  intro ρ v hv
+  rw [truth_or] at hv
+  cases hp : truth opq ρ p with
+  | none => simp [hp, bind, Option.bind] at hv
+  | some a =>
+    cases hq : truth opq ρ q with
+    | none => simp [hp, hq, bind, Option.bind] at hv
+    | some b =>
+      simp [hp, hq, bind, Option.bind, pure] at hv
+      subst hv
+      split at h
+      · rename_i ht; cases h; rw [truth_isTrueLit opq ρ p ht] at hp; cases hp; simpa using truth_isTrueLit opq ρ p ht
+      · split at h
+        · rename_i ht; cases h; rw [truth_isTrueLit opq ρ q ht] at hq; cases hq; simpa using truth_isTrueLit opq ρ q ht
+        · split at h
+          · rename_i hf; cases h; rw [isFalseLit_truth ρ opq p hf] at hp; cases hp; simpa using hq
+          · split at h
+            · rename_i hf; cases h; rw [isFalseLit_truth ρ opq q hf] at hq; cases hq; simpa using hp
+            · split at h
+              · rename_i heq; cases h
+                have : p = q := expr_eq_of_beq heq
+                subst this; rw [hp] at hq; cases hq; simpa using hp
+              · split at h
+                · rename_i hd; cases h
+                  have := obviouslyDifferent_bool opq p q hd ρ a b hp hq
+                  subst this; cases b <;> exact truth_trueLit' opq ρ
+                · cases h
+
+end
 end Hpl
